@@ -764,6 +764,11 @@ def kind_name_(m, v):
 
 for _nm, _bf, _ns, _af in INT_TEMPLATES:
     _reg_int_kinds(_nm, _bf, _ns, _af)
+# thorough tier: one more arbitrary token where the literal stands in a row (not inside an expression: see above)
+for _nm, _bf, _ns, _af in INT_TEMPLATES:
+    if _nm in ("first entry of a row", "second entry of a row", "row below a row", "first row of a loop body", "first row of a while body",
+               "repeat row", "entry after bits", "loop bound", "while condition"):
+        _reg_int_kinds(_nm + ", one more token", _bf, _ns + 1, _af, tier="thorough")
 
 
 @obligation("C20/dig-header-through-the-parser", profiles=("dev",),
